@@ -103,6 +103,49 @@ class RoundTrip(Family):
                     ctx.claim("average-returns-original-averages", ctx.eq(ay[k], Y[k]), dict(info, k=k))
 
 
+class LongSeries(Family):
+    name = "long-series-cheap-strategies"
+    doc = "recreated series of 37..100 samples (non-adaptive strategies: one path whatever the size), irregular spacing"
+    differential = False
+
+    def configs(self, tier):
+        grids = {"one-missing": [0, 1, 2, 4, 5, 6], "two-missing": [0, 1, 2, 4, 5, 6, 7, 9, 10], "uniform": list(range(7)),
+                 "irregular": [0, 2, 3, 7, 8, 10, 15]}
+        out = []
+        for gname, g in grids.items():
+            for s in ("LinearFixedRFA", "ExpFixedRFA", "PiecewiseConstantRFA", "CubicSplineRFA"):
+                for n in ((7, 12) if tier == "quick" else (7, 8, 12, 16)):
+                    for app in ("none", "periodic"):
+                        if tier == "quick" and (len(s) + n + len(gname) + len(app)) % 2:
+                            continue
+                        out.append({"grid": g, "strategy": s, "n": n, "trule": "rectangle" if (n + len(s)) % 2 else "trapezoid", "append": app})
+        return out
+
+    def run(self, ctx, inst, grid, strategy, n, trule, append):
+        from traffic_weaver import Weaver, rfa, process
+        gx = [Fraction(g) for g in grid]
+        m = len(gx)
+        ys = ctx.reals("y", m)
+        X = [Sym.lift(g) for g in gx] if ctx.symbolic else [float(g) for g in gx]
+        Y = list(ys)
+        w = Weaver(cx(ctx, gx), arr(ctx, ys))
+        if append != "none":
+            w.append_one_sample(make_periodic=True)
+            X, Y = X + [2 * X[-1] - X[-2]], Y + [Y[0]]
+        M = len(X)
+        w.recreate_from_average(n, rfa_class=getattr(rfa, strategy)).integral_match(target_function_integral_method=trule)
+        rx, ry = w.get()
+        ctx.claim("length", len(rx) == (M - 1) * n + 1)
+        RX, RY = list(rx), list(ry)
+        for k in range(M - 1):
+            ctx.claim("interval-mean-is-original-average", ctx.eq(o_integral(RX, RY, trule, k * n, (k + 1) * n), Y[k] * (X[k + 1] - X[k])),
+                      {"k": k, "strategy": strategy, "n": n, "grid": grid})
+        if trule == "rectangle":
+            ax, ay = process.average(rx, ry, n)
+            for k in range(M - 1):
+                ctx.claim("average-returns-original-averages", ctx.And(ctx.eq(ay[k], Y[k]), ctx.same(ax[k], X[k])), {"k": k})
+
+
 class Bundled(Family):
     name = "bundled-dataset-abscissae"
     doc = "the abscissae of each bundled dataset (concrete) with symbolic values, non-adaptive strategies"
@@ -160,4 +203,4 @@ if __name__ == "__main__":
     ap = argparse.ArgumentParser()
     ap.add_argument("--tier", default="quick")
     a = ap.parse_args()
-    sys.exit(run_check("C02", "averaging round trip", [RoundTrip(), Bundled()], a.tier, META))
+    sys.exit(run_check("C02", "averaging round trip", [RoundTrip(), LongSeries(), Bundled()], a.tier, META))
